@@ -222,8 +222,32 @@ impl<const K: usize> Iterator for CountingIter<K> {
     }
 }
 
-fn c12_evaluate_v<const N: usize, const K: usize>(allow_nan: bool) {
-    let segs = wf_segments::<N>();
+/// the same input iterator reporting its exact length through size_hint
+struct SizedCountingIter<const K: usize> { xs: [f64; K], i: usize }
+impl<const K: usize> Iterator for SizedCountingIter<K> {
+    type Item = f64;
+    fn next(&mut self) -> Option<f64> {
+        if self.i < K {
+            let v = self.xs[self.i];
+            self.i += 1;
+            unsafe { PULLED += 1; }
+            Some(v)
+        } else {
+            None
+        }
+    }
+    fn size_hint(&self) -> (usize, Option<usize>) { (K - self.i, Some(K - self.i)) }
+}
+/// long lists: breakpoints on the concrete grid 0, 0, 1, 1, 2, ... (duplicates included) so that only the arguments are symbolic
+fn grid_segments<const N: usize>() -> [Segment<Tag>; N] {
+    let mut segs = [Segment { end: 0.0, poly: Tag(0) }; N];
+    let mut i = 0;
+    while i < N { segs[i] = Segment { end: (i / 2) as f64, poly: Tag(i as u32 + 1) }; i += 1; }
+    segs
+}
+fn c12_evaluate_v<const N: usize, const K: usize>(allow_nan: bool) { c12_evaluate_v_x::<N, K>(allow_nan, false) }
+fn c12_evaluate_v_x<const N: usize, const K: usize>(allow_nan: bool, long: bool) {
+    let segs = if long { grid_segments::<N>() } else { wf_segments::<N>() };
     let pw = Piecewise { segments: segs.to_vec() };
     let mut xs = [0.0f64; K];
     let mut k = 0;
@@ -233,7 +257,7 @@ fn c12_evaluate_v<const N: usize, const K: usize>(allow_nan: bool) {
         k += 1;
     }
     unsafe { PULLED = 0; EVAL_CALLS = 0; }
-    let mut it = pw.evaluate_v(CountingIter::<K> { xs, i: 0 });
+    let mut it: Box<dyn Iterator<Item = f64>> = if long { Box::new(pw.evaluate_v(SizedCountingIter::<K> { xs, i: 0 })) } else { Box::new(pw.evaluate_v(CountingIter::<K> { xs, i: 0 })) };
     unsafe { assert!(EVAL_CALLS == 0, "[spec] lazy: nothing is evaluated before the first output is requested"); }
     let mut running_max = f64::NEG_INFINITY;
     let mut nondecreasing = true;
@@ -271,6 +295,8 @@ fn c12_evaluate_v<const N: usize, const K: usize>(allow_nan: bool) {
 #[kani::proof] #[kani::unwind(9)] fn c12_n6_k2() { c12_evaluate_v::<6, 2>(false) }
 #[kani::proof] #[kani::unwind(11)] fn c12_n8_k2() { c12_evaluate_v::<8, 2>(false) }
 #[kani::proof] #[kani::unwind(15)] fn c12_n12_k2() { c12_evaluate_v::<12, 2>(false) }
+#[kani::proof] #[kani::unwind(27)] fn c12_long_n24_k2() { c12_evaluate_v_x::<24, 2>(false, true) }
+#[kani::proof] #[kani::unwind(27)] fn c12_long_n17_k3() { c12_evaluate_v_x::<17, 3>(false, true) }
 #[kani::proof] #[kani::unwind(5)] fn c16_evaluate_v_anyf64_n3_k3() { c12_evaluate_v::<3, 3>(true) }
 #[kani::proof]
 #[kani::should_panic]
@@ -379,6 +405,11 @@ impl Neg for OpTag {
 impl Translate for OpTag {
     fn translate(&mut self, v: f64) { self.trans += 1; self.scalar = v.to_bits(); }
 }
+// a piece type may well be evaluable; the operations under test have no business evaluating it (the value deliberately ignores the
+// recorded operations, so an operation that derives its argument from evaluations is visible)
+impl Evaluate for OpTag {
+    fn evaluate(&self, _x: f64) -> f64 { self.id as f64 }
+}
 impl HasDerivative for OpTag {
     type DerivativeOf = OpTag;
     fn derivative(&self) -> OpTag { OpTag { derivs: self.derivs + 1, ..*self } }
@@ -426,6 +457,46 @@ fn c15_piecewise<const N: usize>(op: u8) {
     }
     kani::cover!(true, "[cover] the end of the harness is reachable (assumptions are satisfiable)");
 }
+fn bits_eq(a: f64, b: f64) -> bool { a.to_bits() == b.to_bits() || (a.is_nan() && b.is_nan()) }
+/// the same with REAL pieces (Poly1, every finite coefficient, every finite scalar): each piece of the result is bit-identical to the
+/// operation applied to that piece alone (on the unchanged tree both sides are the same expression, so this is cheap)
+fn c15_piecewise_poly1<const N: usize>(op: u8) {
+    let mut segs = [Segment { end: 0.0, poly: Poly1([0.0, 0.0]) }; N];
+    let mut i = 0;
+    while i < N {
+        let (e, a, b): (f64, f64, f64) = (kani::any(), kani::any(), kani::any());
+        kani::assume(!e.is_nan() && a.is_finite() && b.is_finite());
+        segs[i] = Segment { end: e, poly: Poly1([a, b]) };
+        i += 1;
+    }
+    let s: f64 = kani::any();
+    kani::assume(s.is_finite());
+    let pw = Piecewise { segments: segs.to_vec() };
+    let r = match op {
+        0 => pw * s,
+        1 => { let mut r = pw; r *= s; r }
+        2 => -pw,
+        _ => { let mut r = pw; r.translate(s); r }
+    };
+    assert!(r.segments.len() == N, "[spec] the number of pieces is unchanged");
+    let mut i = 0;
+    while i < N {
+        let want = match op {
+            0 => segs[i].poly * s,
+            1 => { let mut q = segs[i].poly; q *= s; q }
+            2 => -segs[i].poly,
+            _ => { let mut q = segs[i].poly; q.translate(s); q }
+        };
+        assert!(r.segments[i].end.to_bits() == segs[i].end.to_bits(), "[spec] every breakpoint is bit-identical and in the same position");
+        assert!(bits_eq(r.segments[i].poly.0[0], want.0[0]) && bits_eq(r.segments[i].poly.0[1], want.0[1]), "[spec] piece i is exactly the operation applied to piece i alone");
+        i += 1;
+    }
+    kani::cover!(true, "[cover] the end of the harness is reachable (assumptions are satisfiable)");
+}
+// (`*` and `*=` with symbolic products do not finish in CBMC; their per-piece application is covered by the recording pieces above)
+#[kani::proof] #[kani::unwind(6)] fn c15_poly1_neg_n3() { c15_piecewise_poly1::<3>(2) }
+#[kani::proof] #[kani::unwind(6)] fn c15_poly1_translate_n3() { c15_piecewise_poly1::<3>(3) }
+#[kani::proof] #[kani::unwind(6)] fn c15_poly1_translate_n2() { c15_piecewise_poly1::<2>(3) }
 macro_rules! c15 { ($($name:ident, $n:expr, $op:expr, $u:expr;)*) => { $( #[kani::proof] #[kani::unwind($u)] fn $name() { c15_piecewise::<$n>($op) } )* } }
 c15! {
     c15_mul_n1, 1, 0, 4; c15_mul_n2, 2, 0, 5; c15_mul_n3, 3, 0, 6; c15_mul_n4, 4, 0, 7;
